@@ -140,9 +140,40 @@ Proof.
   - intros E1. apply orb_true_iff in B. destruct B as [B|B]; [apply Nat.eqb_eq in B; contradiction|apply fullinfo_b_sound, B].
 Qed.
 
+Lemma vof_b_sound P nd : vof_b P nd = true -> Vof P nd.
+Proof.
+  unfold vof_b, Vof. intros H. apply orb_true_iff in H. destruct H as [H|H]; [left; apply Nat.eqb_eq, H|right].
+  apply existsb_exists in H. destruct H as (x & Hx & E). apply node_eqb_eq in E. subst. exact Hx.
+Qed.
+Lemma children_first_b_sound nodes : forall P, children_first_b P nodes = true -> children_first P nodes.
+Proof.
+  induction nodes as [|[p [l r]] nodes IH]; intros P H; cbn in *; [exact I|].
+  apply andb_true_iff in H. destruct H as [H H3]. apply andb_true_iff in H. destruct H as [H1 H2].
+  split; [apply vof_b_sound, H1|]. split; [apply vof_b_sound, H2|apply IH, H3].
+Qed.
+Lemma rs_pre_b_sound ind s : rs_pre_b n ind s = true -> rs_pre n ind s.
+Proof.
+  unfold rs_pre_b, rs_pre. intros H. do 10 (apply andb_true_iff in H; destruct H as [H ?]).
+  rename H0 into Hfull, H1 into Hki, H2 into Hu, H3 into Htr, H4 into Hinc, H5 into Hpos, H6 into Ts, H7 into Tw, H8 into Tf, H9 into Hnd.
+  split; [apply memb_In, H|]. split; [apply nodupb_sound, Hnd|]. split; [exact Tf|]. split; [exact Tw|]. split; [exact Ts|].
+  split; [lia|]. split.
+  { rewrite forallb_forall in Hinc. intros j Hj. apply memb_In, Hinc, Hj. }
+  split.
+  { destruct (traverse n s) as [nodes|]; [|discriminate]. apply andb_true_iff in Htr. destruct Htr as [A B].
+    exists nodes. split; [reflexivity|]. split; [apply npermb_sound, A|apply children_first_b_sound, B]. }
+  split.
+  { rewrite forallb_forall in Hu. intros p l r E. specialize (Hu (p, (l, r)) (nget_In _ _ _ E)). apply node_eqb_eq, Hu. }
+  split.
+  { rewrite forallb_forall in Hki. intros q Hq. unfold nkeys in Hq. apply in_map_iff in Hq. destruct Hq as (c & <- & Hc).
+    apply nmem_true, Hki, Hc. }
+  rewrite forallb_forall in Hfull. intros nd i Hi Hl. specialize (Hfull (nd, i) (nget_In _ _ _ Hi)). cbn [fst snd] in Hfull.
+  apply orb_true_iff in Hfull. destruct Hfull as [E|E]; [apply Nat.eqb_eq in E; contradiction|].
+  apply nget_in_keys, nmem_true, E.
+Qed.
+
 Theorem prim_pre_b_sound p s : prim_pre_b n p s = true -> prim_pre n p s.
 Proof.
-  destruct p as [nd|nd|x y lg c z|g nd|f| | | | | |pr a b c|ind pj|ind| |k]; cbn [prim_pre_b prim_pre prim_pre1 prim_pre0]; intros H; try exact I; try exact H.
+  destruct p as [nd|nd|x y lg c z|g nd|f| | | | | |pr a b c|ind pj|ind| |k]; cbn [prim_pre_b prim_pre prim_preN prim_pre1 prim_pre0]; intros H; try exact I; try exact H.
   - apply good_node_b_sound, H.
   - apply orb_true_iff in H. destruct H as [H|H]; [left; apply Nat.eqb_eq, H|right].
     apply andb_true_iff in H. destruct H as [H1 H2]. split; [apply nget_in_keys, nmem_true, H1|apply nmem_true, H2].
@@ -151,7 +182,7 @@ Proof.
     apply andb_true_iff in H. destruct H as [H1 H2]. split; [apply good_node_b_sound, H1|apply flops_pre_b_sound, H2].
   - apply stats_pre_b_sound, H.
   - apply rm_pre_b_sound, H.
-  - discriminate.
+  - apply rs_pre_b_sound, H.
 Qed.
 Theorem pre_trace_b_sound tr : forall s, pre_trace_b n tr s = true -> pre_trace n (prim_pre n) tr s.
 Proof.
@@ -169,3 +200,28 @@ End S.
 Theorem checked_trace_from_fresh n : 2 <= NN n -> NoDup (output n) ->
   forall tr, pre_trace_b n tr (init_state n) = true -> InvC n (run n tr (init_state n)).
 Proof. intros HN Hout tr H. apply (trace_from_fresh_InvC n HN Hout), (pre_trace_b_sound n Hout), H. Qed.
+
+(* the second sentence of C04, for histories certified by the boolean precondition check: two such
+   histories that end with the same tree (up to the order of children / dict entries) and the same
+   sliced / projected indices (in any order) report the same figures and totals *)
+Theorem roundtrip_checked n : 2 <= NN n -> NoDup (output n) ->
+  forall tr1 tr2, pre_trace_b n tr1 (init_state n) = true -> pre_trace_b n tr2 (init_state n) = true ->
+  let s1 := run n tr1 (init_state n) in let s2 := run n tr2 (init_state n) in
+  ch_equiv (children s1) (children s2) -> Permutation (sliced s1) (sliced s2) ->
+  (forall nd i1 i2, nget nd (info s1) = Some i1 -> nget nd (info s2) = Some i2 ->
+     (forall z1 z2, i_size i1 = Some z1 -> i_size i2 = Some z2 -> z1 = z2) /\
+     (forall z1 z2, i_flops i1 = Some z1 -> i_flops i2 = Some z2 -> z1 = z2) /\
+     (forall l1 l2, i_legs i1 = Some l1 -> i_legs i2 = Some l2 ->
+        size_of (szd n) (lkeys l1) = size_of (szd n) (lkeys l2) /\ forall j, In j (lkeys l1) <-> In j (lkeys l2))) /\
+  ((forall p, In p (nkeys (children s1)) -> nget p (info s1) <> None /\ nget p (info s2) <> None) ->
+   (trk_flops s1 = true -> trk_flops s2 = true -> flops_ s1 = flops_ s2) /\
+   (trk_write s1 = true -> trk_write s2 = true -> write_ s1 = write_ s2) /\
+   mult s1 = mult s2).
+Proof.
+  intros HN Hout tr1 tr2 H1 H2 s1 s2 Heq HP.
+  pose proof (checked_trace_from_fresh n HN Hout tr1 H1) as I1. pose proof (checked_trace_from_fresh n HN Hout tr2 H2) as I2.
+  fold s1 in I1. fold s2 in I2. split.
+  - apply (figures_determined_eq n HN Hout s1 s2 I1 I2 Heq). intros j. unfold removed.
+    split; apply Permutation_in; [|apply Permutation_sym]; apply Permutation_map, HP.
+  - intros Hpres. apply (totals_determined_eq n HN Hout s1 s2 I1 I2 Heq HP Hpres).
+Qed.
